@@ -27,8 +27,18 @@ NOT_APPLICABLE = {
     "C17": "a shutdown signal racing in-flight tasks: scheduler/TaskTracker/CancellationToken semantics, no single-task encoding decides it",
     "C20": "the cache update is an anonymous closure inside AgonesDiscoveryAdapter::new fed by a kube watcher stream from a live client; no callable unit to encode, and deletions are dropped inside kube-runtime's applied_objects()",
 }
-for _p in ["C01", "C02", "C03", "C04", "C05", "C06", "C07", "C10", "C11", "C12", "C13", "C14", "C15", "C18", "C19"]:
-    NOT_APPLICABLE[_p] = "check not built yet in this round (planned, see DESIGN.md §4)"
+_LOGIN = ("needs the whole Connection::listen login script under the solver: Kani encodes the niche-optimised Result types as unions whose reads CBMC does not "
+          "constant-fold, so error paths continue symbolically through the rest of the script on garbage and a complete login runs out of 24 GB "
+          "(measured, DESIGN.md §1.13); the encoding exists under engines/x/harness/passage-protocol but no check that is conclusive on the unchanged tree could be registered")
+NOT_APPLICABLE.update({
+    "C01": _LOGIN, "C02": _LOGIN, "C03": _LOGIN, "C06": _LOGIN, "C10": _LOGIN,
+    "C14": "Listener::handle wraps the same Connection::listen script: " + _LOGIN,
+    "C15": "Listener::handle wraps the same Connection::listen script: " + _LOGIN,
+    "C11": "harness written (engines/k/src/c11.rs, SHA-1 compression stubbed) but num-bigint's limb arithmetic and radix conversion do not finish under CBMC within 30 min even for 3 symbolic digest bytes",
+    "C12": "within reach of the erased-copy engine (request parameters recorded by a reqwest model) but not built in the time available; the defect found by reading is fixed (329a042)",
+    "C18": "within reach of the erased-copy engine (filters/strategies against a reference evaluator) but not built in the time available",
+    "C19": "needs tonic/prost generated code (build script with protoc) inside the scratch workspace and SocketAddr Display/FromStr under CBMC; not attempted",
+})
 
 PROPS["C09"] = {
     "level_text": "Bounded model checking of the real encoder/decoder (erased copy regenerated from /repo): every packet type is encoded by the real writer, compared byte-for-byte with an independent reference encoder and id table, decoded by the real reader and compared; VarInt/VarLong for all 2^32 / 2^64 values. Strings up to 5 bytes, arrays up to 32.",
@@ -186,3 +196,9 @@ PROPS["C07"] = {
     ],
 }
 NOT_APPLICABLE.pop("C07", None)
+
+NOT_APPLICABLE.pop("C09", None)
+
+# whole-connection harness sets are kept for reference but not registered as checks (DESIGN.md §5)
+PROPS["C06"]["claimed"] = False
+PROPS["C01"]["claimed"] = False
